@@ -1,7 +1,7 @@
 (* The IEEE-double model (ScaleF) against the exact geometry (ScaleQ): finite sweeps evaluated by
    vm_compute with the bounds written in the statements, and the refuting witness of the pointer
    mapping (F17). *)
-From LV Require Import Scale.ScaleQ Scale.ScaleF.
+From LV Require Import Scale.ScaleQ Scale.ScaleF Scale.ScaleProofs.
 From Coq Require Import ZArith List Bool Lia.
 Import ListNotations.
 Local Open Scope Z_scope.
@@ -20,13 +20,13 @@ Proof.
 Qed.
 
 (* ------------------------------------------------------------------ ScaleX / ScaleY *)
-Definition near (o : option Z) (q : Z) : bool :=
-  match o with Some v => (q - 1 <=? v) && (v <=? q) | None => false end.
+Definition exactly (o : option Z) (q : Z) : bool :=
+  match o with Some v => v =? q | None => false end.
 
 Definition chk_scale (W n : Z) : bool :=
   let w' := W / n in
-  forallb (fun x => near (scaleF W w' x) (scaleQ W w' x)) (zrange W) &&
-  forallb (fun x => near (scaleF w' W x) (scaleQ w' W x)) (zrange w').
+  forallb (fun x => exactly (scaleF W w' x) (scaleQ W w' x)) (zrange W) &&
+  forallb (fun x => exactly (scaleF w' W x) (scaleQ w' W x)) (zrange w').
 
 Definition NS : Z := 192.
 
@@ -34,12 +34,13 @@ Lemma sweep_scale_ok : forallb (fun W => forallb (fun n => chk_scale W n) (range
 Proof. vm_compute. reflexivity. Qed.
 
 (* C17_F_agrees_Q_on: for every screen width up to 192 and every factor, the double expression of
-   ScaleX (both directions) is defined and equals the exact value or the exact value minus one *)
-Theorem scaleF_near_Q : forall W n,
+   ScaleX (both directions, formula of commit c7c2b1b: multiply, then divide) is defined and equals
+   the exact value floor(x*to/from) *)
+Theorem scaleF_is_Q : forall W n,
   1 <= W <= NS -> 1 <= n <= W ->
   let w' := W / n in
-  (forall x, 0 <= x < W -> exists v, scaleF W w' x = Some v /\ scaleQ W w' x - 1 <= v <= scaleQ W w' x) /\
-  (forall x, 0 <= x < w' -> exists v, scaleF w' W x = Some v /\ scaleQ w' W x - 1 <= v <= scaleQ w' W x).
+  (forall x, 0 <= x < W -> scaleF W w' x = Some (scaleQ W w' x)) /\
+  (forall x, 0 <= x < w' -> scaleF w' W x = Some (scaleQ w' W x)).
 Proof.
   intros W n HW Hn w'.
   pose proof sweep_scale_ok as S. rewrite forallb_forall in S.
@@ -47,12 +48,21 @@ Proof.
   specialize (S n (In_range1 _ _ Hn)). unfold chk_scale in S. fold w' in S.
   apply andb_prop in S. destruct S as [S1 S2]. rewrite forallb_forall in S1, S2.
   split; intros x Hx.
-  - specialize (S1 x (In_zrange _ _ Hx)). unfold near in S1.
-    destruct (scaleF W w' x) as [v|]; [|discriminate]. exists v. split; [reflexivity|].
-    apply andb_prop in S1. destruct S1 as [A B]. apply Z.leb_le in A, B. lia.
-  - specialize (S2 x (In_zrange _ _ Hx)). unfold near in S2.
-    destruct (scaleF w' W x) as [v|]; [|discriminate]. exists v. split; [reflexivity|].
-    apply andb_prop in S2. destruct S2 as [A B]. apply Z.leb_le in A, B. lia.
+  - specialize (S1 x (In_zrange _ _ Hx)). unfold exactly in S1.
+    destruct (scaleF W w' x) as [v|]; [|discriminate]. apply Z.eqb_eq in S1. congruence.
+  - specialize (S2 x (In_zrange _ _ Hx)). unfold exactly in S2.
+    destruct (scaleF w' W x) as [v|]; [|discriminate]. apply Z.eqb_eq in S2. congruence.
+Qed.
+
+(* C17_pointer_unscale over the doubles, swept range: the pointer of client pixel x lands in the
+   source block [x*ax, x*ax + ax) that the filter averages for it *)
+Theorem pointer_in_block_F : forall W n x,
+  1 <= W <= NS -> 1 <= n <= W -> let w' := W / n in 0 <= x < w' ->
+  exists v, scaleF w' W x = Some v /\ x * scaleQ w' W 1 <= v < x * scaleQ w' W 1 + scaleQ w' W 1.
+Proof.
+  intros W n x HW Hn w' Hx.
+  destruct (scaleF_is_Q W n HW Hn) as [_ S]. fold w' in S. exists (scaleQ w' W x). split; [apply S; exact Hx|].
+  apply (LV.Scale.ScaleProofs.pointer_in_block_Q W n x); lia.
 Qed.
 
 (* ------------------------------------------------------------------ rfbScaledCorrection *)
@@ -102,19 +112,23 @@ Proof.
     rewrite !andb_true_iff, !Z.leb_le in S2. lia.
 Qed.
 
-(* ------------------------------------------------------------------ F17 *)
-(* the pointer of a half-size client: pixel 29 of 100 maps to 57, outside the source block [58,60) *)
-Lemma pointer_refuted :
-  exists W n x v, 1 <= n /\ n <= W /\ 0 <= x < W / n /\ scaleF (W / n) W x = Some v /\
+(* ------------------------------------------------------------------ F17 (fixed by c7c2b1b) *)
+(* for the record: the formula before the fix, (int)((x/from)*to), sent pixel 29 of a half-size
+   client to 57, outside its source block [58,60); the formula in the tree sends it to 58 *)
+Lemma pointer_old_formula_refuted :
+  exists W n x v, 1 <= n /\ n <= W /\ 0 <= x < W / n /\ scaleF_old (W / n) W x = Some v /\
                   ~ (x * scaleQ (W / n) W 1 <= v).
 Proof.
   exists 200, 2, 29, 57. split; [lia|]. split; [lia|]. split; [cbn; lia|]. split; [vm_compute; reflexivity|].
   vm_compute. intros C. apply C. reflexivity.
 Qed.
 
+Example pointer_in_block_F_nonvacuous : scaleF 100 200 29 = Some 58 /\ scaleF 960 1920 123 = Some 246.
+Proof. vm_compute. auto. Qed.
+
 (* a zero-wide scaled screen: the pointer mapping and the correction are the integer indefinite *)
 Lemma zero_width_indefinite : scaleF 0 10 5 = None /\ scaleF 0 10 0 = None /\ corr1F 0 10 0 1 = None.
 Proof. vm_compute. auto. Qed.
 
-Example scaleF_near_Q_nonvacuous : scaleF 100 50 57 = Some 28 /\ scaleF 29 87 28 = Some 84.
+Example scaleF_is_Q_nonvacuous : scaleF 100 50 57 = Some 28 /\ scaleF 29 87 28 = Some 84.
 Proof. vm_compute. auto. Qed.
